@@ -573,7 +573,15 @@ fn concurrent_child(seed: u64, dir: &Path, replay: Option<Vec<u32>>) -> Value {
 	// be visible to anybody else
 	let commit_invoked: Arc<Vec<std::sync::atomic::AtomicU64>> = Arc::new((0..n_writers).map(|_| std::sync::atomic::AtomicU64::new(0)).collect());
 	let size_before = map_size(dir);
-	sched::install(seed, stay, replay, 300_000);
+	let mut sr = SimRng::new(seed).fork("stalls");
+	let mut stalls: Vec<(u64, u64)> = vec![];
+	if sr.chance(1, 2) {
+		for _ in 0..sr.range(1, 3) {
+			stalls.push((sr.below(6000), sr.range(150, 4000)));
+		}
+	}
+	let n_stalls = stalls.len();
+	sched::install_with_stalls(seed, stay, replay, 300_000, stalls);
 	let mut handles = vec![];
 	for w in 0..n_writers {
 		let store = store.clone();
@@ -845,6 +853,7 @@ fn concurrent_child(seed: u64, dir: &Path, replay: Option<Vec<u32>>) -> Value {
 		"switch_digest": format!("{:016x}", fnv64(&sw)),
 		"trace_digest": format!("{:016x}", fnv64(&full)),
 		"resized": map_size(dir) > size_before,
+		"stalls": n_stalls,
 		"map_before": size_before,
 		"map_after": map_size(dir),
 		"helper_threads": out.names.iter().filter(|n| n.as_str() == "helper").count(),
@@ -1136,6 +1145,7 @@ pub fn case(tier: &str, seed: u64, case: u64) -> CaseResult {
 			res.probe("map_resized_under_concurrency");
 		}
 		res.probe_n("resize_helper_threads_scheduled", r["helper_threads"].as_u64().unwrap_or(0));
+		res.fault_n("thread_stalled", r["stalls"].as_u64().unwrap_or(0));
 		let sd = u64::from_str_radix(r["switch_digest"].as_str().unwrap_or("0"), 16).unwrap_or(0);
 		res.run_digests.push((sd, true));
 		res.states.insert(sd);
